@@ -21,6 +21,7 @@ type ClientServerStream struct {
 
 	serverSend chan any
 	clientSend chan any
+	closeSend  sync.Once // CloseSend may be called more than once
 	trailer    metadata.MD
 	closed     context.CancelFunc
 	closeErr   error
@@ -103,7 +104,7 @@ func (c *clientStream) Trailer() metadata.MD {
 }
 
 func (c *clientStream) CloseSend() error {
-	close(c.clientSend)
+	c.closeSend.Do(func() { close(c.clientSend) })
 	return nil
 }
 
